@@ -18,6 +18,8 @@ Definition obs_of (c : case) : obs := mk_obs (k_ret c) (k_ra c) (k_err c) (k_wri
 Definition model_agrees (c : case) : bool :=
   let m := step_repo (c_tbl c) (c_now c) (c_chain c) (c_fin c) in
   negb (k_setup_failed c)
+  (* the hypotheses of model_meets_spec hold of this case *)
+  && sortedb (c_tbl c) && in_domain (c_chain c) (c_fin c)
   && Bool.eqb (k_err c) (res_err m)
   && (k_err c || rec_eqb (k_ret c) (res_ret m))
   && (k_ra c =? res_ra m)
